@@ -81,6 +81,18 @@ func (o *Obs) EmitX(t string, x interface{}) {
 	o.Emit(Rec{T: t, X: b})
 }
 
+// EmitXK is EmitX for a scenario other than the current one (scenarios that run concurrently).
+func (o *Obs) EmitXK(t string, k int, x interface{}) {
+	b, err := json.Marshal(x)
+	if err != nil {
+		return
+	}
+	rb, _ := json.Marshal(Rec{T: t, K: k, X: b})
+	o.mu.Lock()
+	o.f.Write(append(rb, '\n'))
+	o.mu.Unlock()
+}
+
 func (o *Obs) Begin(k int) { o.SetK(k); o.Emit(Rec{T: "begin", K: k}) }
 func (o *Obs) End(k int)   { o.Emit(Rec{T: "end", K: k}) }
 func (o *Obs) Close()      { o.f.Close() }
